@@ -16,7 +16,7 @@ TIMEOUT = {'quick': 20, 'thorough': 120}
 def FUNCS():
     return [base.skew, base.vex, base.skewa, base.vexa, base.cross, base.norm, base.normsq, base.colvec, base.unitvec,
             base.adjoint, base.tr2jac, base.delta2tr, base.tr2delta, base.trinv, SE3.Ad, SE3.jacob, SE3.delta, SE3.Delta,
-            Twist3.ad, Twist3.Ad, base.isskew, base.isskewa]
+            Twist3.ad, Twist3.Ad]
 
 
 @claim('skew-vex-3')
@@ -235,3 +235,27 @@ def _(h):
     # commutation with the generator: ad(S) E(a) = E(a) ad(S)  (necessary for E = exp(a ad S))
     adS = Twist3(S).ad()
     h.eq('ad(S) E = E ad(S)', matmul(adS, Ea), matmul(Ea, adS), tol=1e-7, scale=100)
+
+
+@claim('SE3.Delta-constructor')
+def _(h):
+    """SE3.Delta(d): the pose of a differential motion; its own delta from the identity is d to first order (the
+    constructor normalises the rotation, which changes entries by O(|d|^2))"""
+    d = h.vec('d', 6, -1e-4, 1e-4)
+    X = SE3.Delta(d)
+    h.is_type('type', X, SE3)
+    h.eq('translation', X.t, d[0:3], tol=1e-9)
+    h.same('the normalised delta2tr matrix', X.A, base.trnorm(base.delta2tr(d)))
+    h.eq('translational delta recovered', base.tr2delta(X.A)[0:3], d[0:3], tol=1e-9)
+
+
+@claim('Twist3.Ad-is-adjoint-of-exp')
+def _(h):
+    """Twist3.Ad() is the adjoint of the twist's exponential (a concrete rotational part keeps the exponential's branches
+    concrete; the moment is symbolic)"""
+    v = h.vec('v', 3, -10, 10)
+    S = h.arr([v[0], v[1], v[2], 0.3, -0.2, 0.5])
+    tw = Twist3(S)
+    h.same('Ad = adjoint(exp)', tw.Ad(), base.adjoint(base.trexp(S)))
+    T = base.trexp(S)
+    h.eq('Ad form', tw.Ad(), adj_ref(T[:3, :3], T[:3, 3]), tol=1e-9, scale=100)
